@@ -22,7 +22,7 @@ def _all_chunkings(tier, zero=False):
     return [c for _, c in chunkings(7 if tier == "quick" else 10, zero=zero) if c]
 
 
-@contract(f"{SW}::supports_native_sliding_window", spec="ints", props=["C19"])
+@contract(f"{SW}::supports_native_sliding_window", spec="ints", props=["C19", "C02"])
 class supports_native_sliding_window:
     """the guard of the native path: it answers True only when the window is at least 2, every chunk is positive,
     the axis holds a full window and every block that emits output is no larger than window - 1"""
